@@ -26,6 +26,7 @@ type Mutant struct {
 	Expect string // rule id expected to report (prefix match); "" for benign overlays
 	Benign bool
 	Note   string
+	More   [][2]string // further (old, new) replacements in the same file, each old occurring exactly once
 }
 
 var mutants []Mutant
@@ -53,6 +54,13 @@ func runMutant(m Mutant, repo string) mutantOutcome {
 		return out
 	}
 	src := strings.Replace(string(b), m.Old, m.New, 1)
+	for _, e := range m.More {
+		if strings.Count(src, e[0]) != 1 {
+			out.Stale = true
+			return out
+		}
+		src = strings.Replace(src, e[0], e[1], 1)
+	}
 	p, err := loadRepo(repo, map[string][]byte{path: []byte(src)})
 	if err != nil {
 		out.LoadErr = err.Error()
